@@ -51,7 +51,7 @@ def run(chk, repo, tier):
     chk.rule("C03.R1", "Aggregate/_AggregatePKs return encode(identity + Σ decode(s)) over the whole input", 4)
     chk.rule("C03.R2", "Aggregate refuses the empty list (exactly) and mis-sized entries with ValidationError", 3)
     chk.rule("C03.R3", "every zip of caller sequences is dominated by a length-equality gate", 2)
-    chk.rule("C03.R4", "n >= 1 gate dominates the pairing loop / key aggregation; basic suite: distinct-messages gate", 5)
+    chk.rule("C03.R4", "n >= 1 gate dominates the pairing loop / key aggregation; every key validated; basic suite: distinct-messages gate", 8)
     chk.rule("C03.R5", "tested product is Π e(H(m_i), PK_i) · e(sig, -G1) with the second factor exactly once; honest aggregate ⇒ exponent 0", 4)
     chk.not_decided += ["'accepts exactly the sum' (needs bilinearity/non-degeneracy, C05)",
                         "order/grouping independence needs associativity of the group law (C07, not decided there)"]
@@ -113,7 +113,7 @@ def run(chk, repo, tier):
         PKs, msgs_, sig = M.sym_seq("PKs"), M.sym_seq("messages"), M.sym_bytes("signature")
         paths, m = M.paths(suite, "AggregateVerify", [PKs, msgs_, sig])
         construct = f"{CS}.{suite}.AggregateVerify"
-        zbad, nbad, dbad = {}, {}, {}
+        zbad, nbad, dbad, kbad = {}, {}, {}, {}
         npair = 0
         for p in paths:
             for ev in p.events:
@@ -127,6 +127,11 @@ def run(chk, repo, tier):
                     lo, hi, holes, _ = interval_of_facts(list(ev["facts"].items()), PKs.length)
                     if lo < 1:
                         nbad.setdefault(ev["where"], (ev, p))
+                    Pk = ev["P"]
+                    if isinstance(Pk, Term) and Pk.op == "pubkey_to_G1":
+                        if not (has_fact(ev["facts"], Term("subgroup_check", (Pk,), "bool"), True)
+                                and has_fact(ev["facts"], Term("is_inf", (Pk,), "bool"), False)):
+                            kbad.setdefault(ev["where"], (ev, p))
                     if suite == "G2Basic":
                         nset = Term("len_set", (_hashable(msgs_),), "int")
                         # len(set(X)) <= len(X) always, so "not len(set(X)) < len(X)" is equality as well
@@ -142,6 +147,9 @@ def run(chk, repo, tier):
             chk.ob("C03.R3", construct, "zip sites gated by len equality", True, "", m.where)
         chk.ob("C03.R4", construct, "n >= 1 dominates every pairing", not nbad,
                "; ".join(f"pairing at {w} reachable with an empty key list" for w in nbad) or f"{npair} sink evaluations", m.where)
+        chk.ob("C03.R4", construct, "every caller key reaching a pairing passed KeyValidate (subgroup member, not the identity)", not kbad,
+               "; ".join(f"pairing at {w} takes a key that was not validated (an identity or non-subgroup key makes the check accept "
+                         "aggregates that are not the sum)" for w in kbad) or "", m.where)
         if suite == "G2Basic":
             chk.ob("C03.R4", construct, "distinct-messages gate dominates every pairing", not dbad,
                    "; ".join(f"pairing at {w} reachable without len(messages) == len(set(messages))" for w in dbad) or "", m.where)
